@@ -193,6 +193,16 @@ func CheckAgreement(rc *RunCtx, pair *Pair, n *SimNet, cspec, sspec EpSpec, resu
 
 		return false
 	}
+	if cspec.PSK != "" && !resumed && cv.Version == 0xfefd {
+		// the identities the two sides named to each other are part of the session each reports: the
+		// client holds the hint the server presented, the server the identity the client answered with
+		if string(cs.IdentityHint) != sspec.PSKHint || string(ss.IdentityHint) != cspec.PSKHint {
+			rc.Violate("psk-identity-differs", "server presented identity hint %q and the client reports %q; client named identity %q and the server reports %q", sspec.PSKHint, cs.IdentityHint, cspec.PSKHint, ss.IdentityHint)
+
+			return false
+		}
+		rc.S.Probe("psk-identities-compared")
+	}
 	for _, label := range []string{"EXTRACTOR-dtls_srtp", "EXPERIMENTAL-verif", "x"} {
 		for _, l := range []int{16, 75} {
 			a, e1 := cs.ExportKeyingMaterial(label, nil, l)
